@@ -157,8 +157,9 @@ structure SR (α : Type) where
   utmSouth : Bool
   czech : Bool
   axis : List Char
-  /-- `DatumCode == "WGS84"` -/
-  codeWGS84 : Bool
+  /-- `DatumCode` as `proj.Parse` leaves it (`WGS84` from a PROJ.4 string or a named definition,
+  lower-case `wgs84` from a WKT text, `none`, `` …): DATA; the route decision reads it -/
+  datumCode : String
   datum : Datum α
 deriving Inhabited
 
